@@ -73,6 +73,11 @@ STRENGTHENED = {
     "C09-m9": "missed at first; collateral leaving an account in receivership must be priced strictly positive, and the oracle-fault scenario seizes without repaying while the price reads zero",
     "C10-m9": "missed at first; a third of the receivership scenarios run over collateral whose bank carries a collateral-value cap far below the deposits",
     "C10-m10": "missed at first (the foreign instructions of the shape alphabet all carried eight bytes or more); short instructions of a tolerated program before, inside and after the bracket",
+    "C07-m10": "missed at first; the owner moves the bankrupt account to a new address (both variants): a disabled account stays disabled",
+    "C11-m9": "missed at first (a liquidation inside a bracket only in sampled shapes); directed shapes drive the account under water inside its own bracket and try the classic liquidation and the bankruptcy handler before the borrower repairs it",
+    "C12-m9": "missed at first (the settings were never moved to another feed); the admin rotates the settings' price feed before the permissionless propagation reaches the frozen bank",
+    "C14-m9": "missed at first; the risk admin's token-less settlement of a whole debt inside a deleverage bracket is tried on a paused (refused) and a reduce-only (accepted) flagged bank",
+    "C15-m9": "missed at first; the pause-chain engine hands the admin role back and forth between two keys",
     "V4-m2": "caught once every gated instruction (not only deposit) is probed right after the pause expiry",
 }
 def title(d):
